@@ -1,0 +1,8 @@
+//go:build !verif
+
+package model
+
+// verifGate marks a point between two critical sections of EndpointIndex operations (no lock is
+// held there). In regular builds it does nothing; with the "verif" build tag an external harness
+// can park the calling goroutine at the point to impose a chosen interleaving (property C13).
+func verifGate(string) {}
